@@ -21,7 +21,7 @@ def noPair : Term → Bool
 
 /-- the three layouts of a stored value -/
 def Stored : Term → Bool
-  | .pair a (.hash x) => noPair a && noPair x
+  | .pair (.rnd _) (.hash x) => noPair x
   | .pair (.enc k t) (.enc k' t') => noPair k && noPair t && noPair k' && noPair t'
   | .pair _ _ => false
   | t => noPair t
@@ -80,8 +80,7 @@ theorem deriveKey_noPair {params : Term} {p : Pass} {k : Term} (hs : Stored para
       · rename_i hd
         simp at h; subst h
         subst hd
-        simp only [Stored, Bool.and_eq_true] at hs
-        simp [noPair, passT, hs.1]
+        cases salt <;> simp_all [Stored, noPair, passT]
       · simp at h
     · simp at h
 
